@@ -45,6 +45,31 @@ func genAlnum(rng *rand.Rand, thorough bool) {
 	}
 	emit(rep("a", 20000))
 	emit(rep("7", 20000))
+	// every byte value at every position of members around the 8-byte block sizes (word-at-a-time implementations)
+	for _, base := range []string{"abcdefghijklmnopqrstuvwxyzABCDEFGHIJKLMN", "0123456789012345678901234567890123456789"} {
+		for _, l := range []int{7, 8, 9, 15, 16, 17, 24, 25, 33} {
+			sweepPositions(base[:l])
+		}
+	}
+	// numeric strings around the widths of machine integers (parsers used as shortcuts behave differently above them)
+	for _, d := range []string{"9", "18446744073709551615", "18446744073709551616", "99999999999999999999", "89014103211118510720", "9223372036854775807",
+		"9223372036854775808", "4294967295", "4294967296", "340282366920938463463374607431768211455", "340282366920938463463374607431768211456",
+		"00000000000000000000", "000000000000000000000000000000000000001"} {
+		emit(d)
+	}
+}
+
+// sweepPositions emits s with every single position replaced by every byte value.
+func sweepPositions(s string) {
+	b := []byte(s)
+	for i := range b {
+		old := b[i]
+		for v := 0; v < 256; v++ {
+			b[i] = byte(v)
+			emit(string(b))
+		}
+		b[i] = old
+	}
 }
 
 func genRunes(rng *rand.Rand, thorough bool) {
